@@ -16,3 +16,9 @@ func (s *Server) VerifEnableProtectionAfterPause() { s.enableProtectionAfterPaus
 func (s *Server) VerifClaimProtectionUpdate() (ok bool) {
 	return s.protectionUpdateInProgress.CompareAndSwap(false, true)
 }
+
+// VerifProtectionUpdateIdle reports whether no protection re-enable worker is
+// running.
+func (s *Server) VerifProtectionUpdateIdle() (idle bool) {
+	return !s.protectionUpdateInProgress.Load()
+}
